@@ -18,7 +18,7 @@ import pandas as pd
 STAMP_MODES = ('uniform', 'jitter', 'one_late', 'two_rate', 'gap', 'alternating', 'ramp')
 
 
-def shuffle_table(df, rng, extra=True, p=1.0):
+def shuffle_table(df, rng, extra=True, p=1.0, nan_extra=False):
     """Same labelled data, columns permuted, optionally with one unrelated extra column."""
     if rng.random() > p:
         return df
@@ -28,7 +28,11 @@ def shuffle_table(df, rng, extra=True, p=1.0):
         perm = perm[1:] + perm[:1]
     out = df[[cols[i] for i in perm]].copy()
     if extra:
-        out.insert(int(rng.integers(0, len(cols) + 1)), 'rv_extra', rng.normal(size=len(df)) * 1e3)
+        v = rng.normal(size=len(df)) * 1e3
+        if nan_extra:
+            # a column of another, slower sensor in the same log: gaps (NaN) in rows whose own columns are complete
+            v[rng.random(len(df)) < 0.6] = np.nan
+        out.insert(int(rng.integers(0, len(cols) + 1)), 'rv_extra', v)
     return out
 
 
